@@ -39,7 +39,10 @@ except ImportError:  # pragma: no cover
     HAS_ZSTD = False
 
 CODECS = ["identity", "gzip", "deflate", "deflate-raw"] + (["br"] if HAS_BR else []) + (["zstd"] if HAS_ZSTD else [])
-MULTI = ("gzip", "zstd")          # codecs whose format defines concatenation (RFC 1952 2.2, RFC 8878 3.1)
+# codecs whose streams may concatenate members: the format defines it for gzip (RFC 1952 2.2) and
+# zstd (RFC 8878 3.1); for deflate aiohttp documents it (compression_utils.ConcatDecompressionHandler:
+# "Concatenated gzip/deflate members ... decode the same way"), so the reference follows that definition
+MULTI = ("gzip", "zstd", "deflate", "deflate-raw")
 
 
 def header_value(codec: str) -> Optional[str]:
@@ -141,7 +144,7 @@ def reference(codec: str, enc: bytes) -> Ref:
             # HTTP "deflate" is the zlib format (RFC 9110 8.4.1.2); raw deflate streams are a
             # tolerated deviation recognised by the first byte not announcing CM = 8
             wbits = 15 if (enc and enc[0] & 0x0F == 8) else -15
-            multi = False
+            multi = True
         r = _zlib_members(enc, wbits, multi)
         if not r.ok:
             r.data = _zlib_stream_prefix(enc, wbits, multi)
@@ -262,6 +265,16 @@ def corpus(rng: Any, quick: bool = True, codecs: Optional[List[str]] = None) -> 
             enc, marks = concat_members(codec, [b"good member", b"second"])
             bad = enc[:marks[0]] + b"\x07garbage"
             out.append(Body(f"{codec}/garbage-after-member", codec, bad, reference(codec, bad), "flip", marks))
+            # truncation inside a LATER member: a few bytes in (before it has produced output), and deeper
+            enc, marks = concat_members(codec, [b"first member " * 20, b"second member " * 20, b"third " * 9])
+            ends = marks + [len(enc)]
+            for mi, m in enumerate(marks):
+                ks = [1, 2, 3] if quick else list(range(1, min(12, ends[mi + 1] - m)))
+                ks.append(rng.randrange(4, ends[mi + 1] - m))
+                for k in sorted(set(ks)):
+                    cut_enc = enc[:m + k]
+                    out.append(Body(f"{codec}/member{mi + 2}-trunc+{k}", codec, cut_enc, reference(codec, cut_enc),
+                                    "trunc", [x for x in marks if x <= m]))
     return out
 
 
@@ -317,6 +330,84 @@ def ref_prefix_crc(ref: Ref, n: int) -> int:
     if isinstance(ref, BombRef):
         return BombRef(n).crc()
     return zlib.crc32(ref.data[:n])
+
+
+# ---------------------------------------------------------------- where does input decode to nothing?
+def stream_profile(codec: str, enc: bytes) -> List[int]:
+    """cum[i] = bytes a streaming decoder has emitted after the first i input bytes (fed one by one;
+    members are chained).  Stops growing at the first decoding error."""
+    cum = [0]
+    if codec == "identity":
+        return list(range(len(enc) + 1))
+    if codec in ("gzip", "deflate", "deflate-raw"):
+        wbits = 31 if codec == "gzip" else (15 if (enc and enc[0] & 0x0F == 8) else -15)
+        mk: Callable[[], Any] = lambda: zlib.decompressobj(wbits)
+        fin: Callable[[Any], bool] = lambda d: d.eof
+        feed: Callable[[Any, bytes], bytes] = lambda d, b: d.decompress(b)
+    elif codec == "zstd":
+        mk, fin, feed = zstd.ZstdDecompressor, (lambda d: d.eof), (lambda d, b: d.decompress(b))
+    else:
+        mk, fin, feed = brotli.Decompressor, (lambda d: False), (lambda d, b: d.process(b))
+    d = mk()
+    dead = False
+    for i in range(len(enc)):
+        n = 0
+        if not dead:
+            try:
+                if fin(d):
+                    d = mk()
+                n = len(feed(d, enc[i:i + 1]))
+            except Exception:  # noqa: BLE001
+                dead = True
+        cum.append(cum[-1] + n)
+    return cum
+
+
+def plateaus(cum: List[int], min_len: int = 1) -> List[Tuple[int, int]]:
+    """Maximal input ranges (i, j), 0 < i < j <= len(enc), such that the bytes enc[i:j] add no output
+    although output was produced before i (trailers, checksums, headers of a following member, empty
+    blocks, bits that complete no symbol)."""
+    out = []
+    n = len(cum) - 1
+    i = 1
+    while i < n:
+        if cum[i] > 0:
+            j = i
+            while j < n and cum[j + 1] == cum[i]:
+                j += 1
+            if j - i >= min_len:
+                out.append((i, j))
+            i = j + 1
+        else:
+            i += 1
+    return out
+
+
+def wire_offset(offmap: Dict[int, int], body_off: int) -> int:
+    """Wire offset of body byte body_off in a chunked rendering (offmap from frame())."""
+    start = max(k for k in offmap if k <= body_off)
+    return offmap[start] + (body_off - start)
+
+
+# ---------------------------------------------------------------- multipart/form-data request bodies
+BOUNDARY = "c09BoundaryX"
+
+
+def multipart_form(fields: List[Tuple[str, Optional[str], bytes]], boundary: str = BOUNDARY) -> bytes:
+    """fields: (name, filename or None, value).  Canonical rendering - the harness re-renders what the
+    server parsed with the same function, so equality of digests means equality of all fields."""
+    out = bytearray()
+    for name, filename, value in fields:
+        out += b"--" + boundary.encode() + b"\r\n"
+        disp = f'Content-Disposition: form-data; name="{name}"'
+        if filename is not None:
+            disp += f'; filename="{filename}"'
+        out += disp.encode() + b"\r\n"
+        if filename is not None:
+            out += b"Content-Type: application/octet-stream\r\n"
+        out += b"\r\n" + value + b"\r\n"
+    out += b"--" + boundary.encode() + b"--\r\n"
+    return bytes(out)
 
 
 # ---------------------------------------------------------------- framing
